@@ -34,7 +34,8 @@ UNIVERSES = {
 EXTRA_UNIVERSES = {
     "tuple": [(0, 0), (0, 1), (1, 0), (1, 1), (2, 0), (0, 2), (1, 2), (2, 1)],  # e.g. grid coordinates: comparable, hashable
 }
-LAYERS = [["L1", "L2"], ["a", "b", "c"], ["x", "y", "z", "E"], ["social", "work"], ["", "b"], [0, 1, 2]]
+LAYERS = [["L1", "L2"], ["a", "b", "c"], ["x", "y", "z", "E"], ["social", "work"], ["", "b"], [0, 1, 2],
+          ["work", "work ", " work", "Work"]]  # (names that differ only in blanks or case are different layers)
 WEIGHTS = [0.5, 1, 1.5, 2, 2.5, 3, 7, 2.0, 1.0, 0, 0.0, 0.1, 0.2, 1 / 3, 4e-12, 3e-12, 2**53 + 1, 2**60 + 3]  # (the last two: integers no float represents)
 MDS = [None, {}, {"a": 1}, {"c": "x"}, {"a": 2, "n": {"k": [1, 2]}}, {"role": "hub", "t": None}, {"tags": ["x"]}, {"tags": ["y"], "a": 1}]
 FIELDS = ["a", "c", "f", "role"]
